@@ -738,6 +738,53 @@ func unhex(h string) string {
 	return string(b)
 }
 
+func renderings(g geom.Geom) string {
+	var b strings.Builder
+	seen := map[uint64]bool{}
+	add := func(x float64) {
+		u := math.Float64bits(x)
+		if seen[u] || math.IsNaN(x) || math.IsInf(x, 0) {
+			return
+		}
+		seen[u] = true
+		t, err := json.Marshal(x)
+		if err != nil {
+			return
+		}
+		b.WriteString(" " + vproto.F2H(x) + " " + string(t))
+	}
+	pts := func(ps []geom.Point) {
+		for _, p := range ps {
+			add(p.X)
+			add(p.Y)
+		}
+	}
+	switch t := g.(type) {
+	case geom.Point:
+		add(t.X)
+		add(t.Y)
+	case geom.MultiPoint:
+		pts(t)
+	case geom.LineString:
+		pts(t)
+	case geom.MultiLineString:
+		for _, l := range t {
+			pts(l)
+		}
+	case geom.Polygon:
+		for _, l := range t {
+			pts(l)
+		}
+	case geom.MultiPolygon:
+		for _, pg := range t {
+			for _, l := range pg {
+				pts(l)
+			}
+		}
+	}
+	return b.String()
+}
+
 func impl() {
 	vproto.Lines(func(line string, out *bufio.Writer) {
 		p := vproto.NewParser(line)
@@ -778,6 +825,8 @@ func impl() {
 				} else {
 					res = "ok x" + hex.EncodeToString(buf)
 				}
+				// encoding/json's own rendering of every finite coordinate (the model's number formatter)
+				res += " |" + renderings(g)
 			case "rt":
 				g := p.Geom()
 				buf, err := geojson.Encode(g)
